@@ -105,6 +105,12 @@ type c12Ptrs struct {
 	L []int
 }
 
+type c12Reserved struct {
+	Type   int    `yae:"type"`
+	List   []int  `yae:"list"`
+	Return string `yae:"return"`
+}
+
 type c12Node struct {
 	Val  int      `yae:"val"`
 	Next *c12Node `yae:"next"`
@@ -120,7 +126,7 @@ func H12_host() {
 	var host interface{}
 	f := 1.5
 	var nilS *c12Ptrs
-	switch sv.Choice("host", 20) {
+	switch sv.Choice("host", 23) {
 	case 0:
 		host = nil
 	case 1:
@@ -164,6 +170,12 @@ func H12_host() {
 		host = c12Tree{Name: "root", Children: []c12Tree{{Name: "leaf", Children: []c12Tree{}}}}
 	case 18:
 		host = map[string]interface{}{"p": &c12Node{Val: 1}, "L": []c12Tree{}}
+	case 19: // names that are reserved words of the language, as map keys and as field tags
+		host = map[string]interface{}{"type": 1, "map": "m", "p": 2.5, "L": []int{1}}
+	case 20:
+		host = &c12Reserved{Type: 1, List: []int{2}, Return: "r"}
+	case 21:
+		host = map[string]int{"match": 1, "string": 2, "range": 3, "if": 4, "true": 5, "": 6, "a b": 7, "1x": 8}
 	default:
 		host = "a string"
 	}
